@@ -15,6 +15,12 @@ RULE = ('track lists: exhaustively all lists of <= 3 tracks of <= 3 events over 
 def make_msg(k):
     """A distinct real message object for identity k >= 1 (three families)."""
     import mido
+    if k >= 1400000:
+        # the metas that a file format puts at the beginning of a track: to a merge they are events like any other
+        j = k - 1400000
+        if j % 2:
+            return mido.MetaMessage('sequence_number', number=(j // 2) % 65536)
+        return mido.MetaMessage('smpte_offset', frames=(j // 2) % 256, sub_frames=(j // 512) % 100)
     if k >= 400000:
         return mido.MetaMessage('set_tempo', tempo=100000 + (k - 400000) % 900000)
     if k >= 300000:
@@ -33,6 +39,10 @@ def make_msg(k):
 
 
 def ident(m):
+    if m.type == 'sequence_number':
+        return 1400000 + 2 * m.number + 1
+    if m.type == 'smpte_offset':
+        return 1400000 + 2 * (m.frames + 256 * m.sub_frames)
     if m.type == 'set_tempo':
         return 400000 + m.tempo - 100000
     if m.type in ('note_on', 'note_off') and m.note == 60 and m.channel == 0:
@@ -210,6 +220,19 @@ def gen(ck):
             for _e in range(rng.randint(1, 5)):
                 v += 1
                 tr.append((300000 + (v % 127) + 1 + (128 if rng.random() < 0.5 else 0), 0, rng.choice([0, 0, 5, 10])))
+            trs.append(tr)
+        cases.append((trs, rng.choice(['plain', 'skip', 'file'])))
+    # file-shaped tracks: sequence_number / smpte_offset / names at tick 0 of every track, behind other tick-0 events of
+    # earlier tracks and of their own track
+    for _ in range(800 if not thorough else 20000):
+        trs = []
+        k = 0
+        for _t in range(rng.choice([2, 2, 3, 4])):
+            tr = []
+            for _e in range(rng.randint(1, 5)):
+                k += 1
+                ident_k = 1400000 + k if rng.random() < 0.6 else k
+                tr.append((ident_k, 0, rng.choice([0, 0, 0, 0, 3])))
             trs.append(tr)
         cases.append((trs, rng.choice(['plain', 'skip', 'file'])))
     # very many tracks (the merge must not depend on the depth of the call stack)
